@@ -40,26 +40,36 @@ func updatesKey(us []abci.ValidatorUpdate) string {
 }
 
 func compareResponses(a, b *abci.ResponseFinalizeBlock, what string) *Failure {
+	tag := "replica"
+	if containsStr(what, "re-executed") {
+		tag = "re-execution"
+	} else if containsStr(what, "restarted") {
+		tag = "restart"
+	}
+	return compareResponsesTagged(a, b, what, tag)
+}
+
+func compareResponsesTagged(a, b *abci.ResponseFinalizeBlock, what, tag string) *Failure {
 	if !bytes.Equal(a.AppHash, b.AppHash) {
-		return failf("same-app-hash", "app-hash-differs/"+what, "%s: app hash %X vs %X", what, a.AppHash, b.AppHash)
+		return failf("same-app-hash", "app-hash-differs/"+tag, "%s: app hash %X vs %X", what, a.AppHash, b.AppHash)
 	}
 	if len(a.TxResults) != len(b.TxResults) {
-		return failf("same-tx-results", "tx-result-count-differs/"+what, "%s: %d vs %d tx results", what, len(a.TxResults), len(b.TxResults))
+		return failf("same-tx-results", "tx-result-count-differs/"+tag, "%s: %d vs %d tx results", what, len(a.TxResults), len(b.TxResults))
 	}
 	for i := range a.TxResults {
 		x, y := a.TxResults[i], b.TxResults[i]
 		if x.Code != y.Code || x.Codespace != y.Codespace {
-			return failf("same-tx-results", "tx-code-differs/"+what, "%s: tx %d code %d/%s vs %d/%s", what, i, x.Code, x.Codespace, y.Code, y.Codespace)
+			return failf("same-tx-results", "tx-code-differs/"+tag, "%s: tx %d code %d/%s vs %d/%s", what, i, x.Code, x.Codespace, y.Code, y.Codespace)
 		}
 		if x.GasUsed != y.GasUsed || x.GasWanted != y.GasWanted {
-			return failf("same-tx-results", "tx-gas-differs/"+what, "%s: tx %d (code %d) gas used %d vs %d (log %q)", what, i, x.Code, x.GasUsed, y.GasUsed, x.Log)
+			return failf("same-tx-results", "tx-gas-differs/"+tag, "%s: tx %d (code %d) gas used %d vs %d (log %q)", what, i, x.Code, x.GasUsed, y.GasUsed, x.Log)
 		}
 		if !bytes.Equal(x.Data, y.Data) {
-			return failf("same-tx-results", "tx-data-differs/"+what, "%s: tx %d data differs", what, i)
+			return failf("same-tx-results", "tx-data-differs/"+tag, "%s: tx %d data differs", what, i)
 		}
 	}
 	if updatesKey(a.ValidatorUpdates) != updatesKey(b.ValidatorUpdates) {
-		return failf("same-validator-updates", "validator-updates-differ/"+what, "%s: %s vs %s", what, updatesKey(a.ValidatorUpdates), updatesKey(b.ValidatorUpdates))
+		return failf("same-validator-updates", "validator-updates-differ/"+tag, "%s: %s vs %s", what, updatesKey(a.ValidatorUpdates), updatesKey(b.ValidatorUpdates))
 	}
 	return nil
 }
@@ -227,5 +237,80 @@ func TestC07_Determinism(t *testing.T) {
 		ID: "C07", Name: "determinism", Quick: 240, Thor: 8000,
 		Gen: genDetCase, Run: runDetCase,
 		Rule: "kitchen-sink locking-world histories (all request kinds incl. adversarial ones: unknown validator/token, multi-validator lock batches where one entry fails, dust, several validators leaving, absences, evidence) executed on a primary and 1-2 replicas with separate stores (one optionally on on-disk goleveldb), separate fake execution layers and other node keys; per block a replica either executes plainly, is restarted between FinalizeBlock and Commit and executes the block again, is restarted before the block, or runs under GOMAXPROCS 1 or 4; every execution of the same block must agree on app hash, per-transaction code/codespace/gas wanted/gas used/data, the set of validator updates and the engine call log; non-trivial = the block has a failing transaction, >= 2 validator updates, or a restart/re-execution/GOMAXPROCS point; evaluations count blocks",
+	})
+}
+
+// ---- bridge / relayer messages on replicas ----
+
+// BridgeDetCase runs a deposit, withdrawal or relayer history with one replica attached to the chain.
+type BridgeDetCase struct {
+	Source string      `json:"source"` // deposits | withdrawals | relayer
+	Dep    DepositCase `json:"dep,omitempty"`
+	Wd     WdCase      `json:"wd,omitempty"`
+	Rel    RelCase     `json:"rel,omitempty"`
+}
+
+func divergence(o Outcome) *Failure {
+	if o.Fail != nil && containsStr(o.Fail.Detail, "replica divergence") {
+		sig := "replica-divergence"
+		switch {
+		case containsStr(o.Fail.Detail, "gas used"):
+			sig = "tx-gas-differs/replica"
+		case containsStr(o.Fail.Detail, "app hash"):
+			sig = "app-hash-differs/replica"
+		case containsStr(o.Fail.Detail, "code"):
+			sig = "tx-code-differs/replica"
+		}
+		return failf("same-results-on-replicas", sig, "%s", o.Fail.Detail)
+	}
+	return nil
+}
+
+func runBridgeDet(c BridgeDetCase) Outcome {
+	world.ReplicasWanted = 1
+	defer func() { world.ReplicasWanted = 0 }()
+	var inner Outcome
+	switch c.Source {
+	case "deposits":
+		inner = runDepositHistory(c.Dep)
+	case "withdrawals":
+		inner = runWdCase(c.Wd)
+	default:
+		inner = runRelayer(c.Rel, "C02")
+	}
+	o := Outcome{Classes: append([]string{"source=" + c.Source}, inner.Classes...), Evals: inner.Evals, NonTrivial: true}
+	// only disagreement between the executions is this property's business; the inner oracles belong to C03/C05/C02
+	o.Fail = divergence(inner)
+	if inner.Fail != nil && o.Fail == nil {
+		o.Classes = append(o.Classes, "inner-oracle-failed")
+	}
+	return o
+}
+
+func TestC07_Bridge(t *testing.T) {
+	RunProp(t, Prop[BridgeDetCase]{
+		ID: "C07", Name: "bridge", Quick: 240, Thor: 8000,
+		Gen: func(t *rapid.T) BridgeDetCase {
+			c := BridgeDetCase{Source: rapid.SampledFrom([]string{"deposits", "deposits", "withdrawals", "relayer"}).Draw(t, "source")}
+			switch c.Source {
+			case "deposits":
+				c.Dep = genDepositHistory(t)
+				// more failing multi-item batches
+				for i := range c.Dep.Batches {
+					for j := range c.Dep.Batches[i].Items {
+						if rapid.IntRange(0, 3).Draw(t, "mutate") == 0 {
+							c.Dep.Batches[i].Items[j].Mut = rapid.IntRange(1, numDepMuts-1).Draw(t, "mut")
+						}
+					}
+				}
+			case "withdrawals":
+				c.Wd = genWdCase(t)
+			default:
+				c.Rel = genRelCase("C02")(t)
+			}
+			return c
+		},
+		Run:  runBridgeDet,
+		Rule: "deposit-batch histories (multi-item, multi-header batches with mutated items, several batches per block, restarts), withdrawal lifecycles and relayer-world histories (failing votes, replays, registrations, elections) executed on the primary and on a replica with its own store, fake execution layer and node key; every block's app hash and per-transaction code/codespace/gas/data must agree; every case is non-trivial (each contains failing transactions); evaluations count blocks",
 	})
 }
